@@ -695,6 +695,9 @@ def check_kernel_mode(sb, kernel, view, key, mod, consts, mode, opts, res, known
     tier = opts["tier"]
     W = kernel.W
     exr = symex.Executor(mod, mode=mode, unwind=kernel.unwind or 70, max_paths=kernel.max_paths or 3000)
+    t_kernel = time.time()
+    budget = opts.get("kernel_budget", 120)
+    exr.deadline = t_kernel + budget * 0.5
     env = Env(kernel, consts, mode, W, exr.dom)
     argset = ArgSet(kernel, exr, env)
     paths = exr.run(kernel.name, None, setup=argset.setup)
@@ -857,6 +860,9 @@ def check_kernel_mode(sb, kernel, view, key, mod, consts, mode, opts, res, known
             obls.append((lab, [pre_main, ex.Not(claim)], None, None, "claim"))
 
     for lab, facts, p, q, okind in obls:
+        if time.time() - t_kernel > budget:
+            res["obligations"].append({"label": lab, "verdict": "unknown", "solver": "-", "t": 0.0, "note": "kernel time budget"})
+            continue
         if any(f is False for f in facts):
             res["obligations"].append({"label": lab, "verdict": "unsat", "solver": "trivial", "t": 0.0})
             continue
